@@ -828,6 +828,36 @@ pub fn record(inp: &FInput, mask: &Option<Vec<bool>>, full_line: bool) -> (Optio
             }
         }
     }
+    // ---- sequences of operations on the same objects: results are a pure function of the input, nothing may be left over
+    // from earlier calls (C09 / C13): convert the integrator again AFTER all compute_* calls, evaluate the integrals a second
+    // time, build the tessellation a second time
+    {
+        let tok0 = dump_token(&conv);
+        let conv2 = Voronoi::from(&integ);
+        if dump_token(&conv2) != tok0 {
+            fails.push(TessFail { prop: "C13", what: "converting the same integrator a second time (after compute_* calls) gives a different tessellation".into(), detail: json!({}) });
+        }
+        let vols2 = integ.compute_cell_integrals::<VolumeCentroidIntegral>();
+        if vols2.len() != vols.len() || vols2.iter().zip(vols.iter()).any(|(a, b)| a.volume.to_bits() != b.volume.to_bits() || hex3(a.centroid) != hex3(b.centroid)) {
+            fails.push(TessFail { prop: "C13", what: "compute_cell_integrals called twice on the same integrator gives different results".into(), detail: json!({}) });
+        }
+        let sym2 = integ.compute_face_integrals_sym::<AreaCentroidIntegral>();
+        if sym2.len() != sym_all.len() || sym2.iter().zip(sym_all.iter()).any(|(a, b)| a.integral().area.to_bits() != b.integral().area.to_bits() || a.left() != b.left() || a.right() != b.right()) {
+            fails.push(TessFail { prop: "C13", what: "compute_face_integrals_sym called twice on the same integrator gives different results".into(), detail: json!({}) });
+        }
+        let again = guarded(|| match mref {
+            None => Voronoi::build(&inp.gens, inp.anchor, inp.width, dim, inp.per),
+            Some(m) => Voronoi::build_partial(&inp.gens, m, inp.anchor, inp.width, dim, inp.per),
+        });
+        match again {
+            Ok(v2) => {
+                if dump_token(&v2) != dump_token(&direct) {
+                    fails.push(TessFail { prop: "C09", what: "building the same tessellation a second time gives a different result".into(), detail: json!({}) });
+                }
+            }
+            Err(msg) => fails.push(TessFail { prop: "C09", what: "building the same tessellation a second time panics".into(), detail: json!({"message": msg}) }),
+        }
+    }
     let wq: Vec<i64> = (0..3).map(|k| qi(width[k] / l)).collect();
     let line = json!({
         "far": far,
